@@ -190,7 +190,7 @@ func newOfflineClient(dc int, st session.Storage, pfs bool, res dcs.Resolver) *t
 // c30Direct: sequential histories of session notifications against the reference model
 // "the last notification of the primary DC wins; everything else leaves the storage untouched".
 func c30Direct(c *mon.Ctx) {
-	n := c.N(5000, 100000)
+	n := c.N(5000, 200000)
 	ctx := context.Background()
 	for h := 0; h < n; h++ {
 		r := c.RandN("c30-direct", h)
